@@ -186,6 +186,12 @@ def unit(u) -> Stats:
                 if st.nviol >= 3:
                     return st
                 continue
+            if p == 1:
+                base_k = A.kmask(A.minimal_ids(n))
+                for j in range(R):
+                    t0 = read(run_history(n, comp, hidden[j][0], [("reset", base_k), ("compute",)]))
+                    if bool(np.all(t0.lo == t0.up)):
+                        st.count("repetitions_done_right_after_reset")
             if continuous:
                 games = [hidden[j][0] for j in range(R)]
                 if len(set(games)) != R:
@@ -253,6 +259,13 @@ def run(run: Run) -> None:
                     limit = (None, 2, 3)[(si + R) % 3]
                     real = (2, 3) if (R == 5 and gi == 0) else ()
                     us.append(((3, generator, solver, s, R, limit, comp, gap_name), ps_q if quick else ps_t, real, f"{solver}/{generator}/R{R}"))
+    # generators that sometimes draw a game whose intervals are all degenerate at minimal information (episode done right after reset)
+    for gi, (generator, n) in enumerate((("xs2", 4), ("graph_random", 3), ("xs3", 3), ("factory_one", 3))):
+        for si, solver in enumerate(("largest", "greedy")):
+            if quick and (gi + si + seed) % 2:
+                continue
+            us.append(((n, generator, solver, seed * 4 + 3, 12, None, "superadditive_cached", ("l1_norm", "exploitability")[si]),
+                       [1, 2, 3] if quick else [1, 2, 3, 4, 8, 16], (), f"{solver}/{generator}/degenerate-prone"))
     if not quick:
         for solver in solvers:
             us.append(((4, "noisy_factory", solver, seed + 3, 12, 3, "superadditive_cached", "l1_norm"), [1, 2, 3, 4, 8, 16], (4,), f"{solver}/n4"))
